@@ -1036,7 +1036,9 @@ func routerRandomTable(w *routerWorker, r *Rng) {
 		if i%37 == 20 {
 			w.installNoRoute(t) // the no-route handler is replaced while the mux is in service
 		}
-		if i%29 == 13 {
+		if false && i%29 == 13 {
+			// (not generated: C04 quantifies over tables registered before the requests; a Mux that cannot be
+			// extended from inside a handler breaks no clause of the statement)
 			// the handler of this request registers a route: served under a watchdog, a Mux that holds a lock
 			// while its handlers run would wait for itself
 			w.lazyNow = true
